@@ -291,9 +291,24 @@ def run_dag(ctx, spec, formulas, gid):
         if not ld.ok:
             report(r, ID, None, case, ld.brief(), 'a loadable slice', monitor='translate-acyclic')
             continue
+        # every second slice is ALSO written to <dir of its entry>/model.py and loaded through class_file= (one file name for all
+        # slices of the process, older files loaded again after newer ones): it has to be the class of that very slice
+        via_file = None
+        if (len(a) + s) % 2 == 0:
+            exf, _ = pipeline.file_executor(t.value, ctx.workdir, f'slice_{gid}_{s}_{a}'.replace(' ', '').replace('(', '').replace(')', '').replace(',', '_'))
+            r.count('slices_loaded_from_files_of_one_name')
+            if exf.ok:
+                via_file = exf.value
+            else:
+                report(r, ID, None, case, exf.brief(), 'the written slice loads', monitor='translate-acyclic')
         missing_members = []
         for (si, rr, cc) in sorted(clo):
             o_s = pipeline.query(ld.value, si, rr, cc)
+            if via_file is not None:
+                o_f = pipeline.guarded(lambda: via_file.get_cell(pipeline.ncell(si, rr, cc)).value, 'evaluate')
+                if not same(o_f, o_s):
+                    report(r, ID, None, {**case, 'cell': [si, wbspec.a1(rr, cc)]}, {'slice_loaded_from_its_file': o_f.brief()}, {'slice_as_class_object': o_s.brief()},
+                           monitor='slice-equals-whole')
             o_w = pipeline.query(whole.cls, si, rr, cc)
             r.ev()
             r.count('closure_cells_compared')
